@@ -8,8 +8,13 @@
   mandatory fields, and (IEI, format, length-field width, fixed length / capacity) of every optional IE.
 -/
 import Stgutg.Model.NasSpec
+import Stgutg.Model.NasCtor
+import Stgutg.Spec.NasCtorIntended
 import Stgutg.Proofs.NasCodec
+import Stgutg.Proofs.NasSpec
+import Stgutg.Proofs.NasCtor
 import Stgutg.Gen.NasLayouts
+import Stgutg.Props.C08
 
 namespace Stgutg.Props.C09
 open Stgutg Stgutg.Nas Stgutg.Spec.Ts24501
@@ -72,5 +77,188 @@ theorem C09_table_count :
     tables.length = 45 ∧ (tables.map (·.opt.length)).sum = 159 ∧
     (Gen.Nas.layouts.map (·.name)).all (fun n => (tables.filter (·.name == n)).length == 1) = true := by
   decide +kernel
+
+/-! ## consequences: the standard's parser reads what the codec writes, and vice versa -/
+
+/-- generic: for every well-formed layout that implements the wire structure `w` (outside the fields in `skip`,
+    which the message leaves nil) and every message that denotes an abstract message (`specWF`: well-formed, and
+    `Len` = number of octets sent for the fixed-size `Len`+`Octet` shapes), the independent TS 24.501 parser reads the
+    codec's bytes back to exactly that abstract message -/
+theorem C09_spec_parses_impl (L : Layout) (w : Wire) (m : Msg) (skip : List Nat)
+    (hL : LayoutWF L) (hm : specWF L m = true) (ha : agree L w skip = true) (hs : skips m skip = true) :
+    ∃ bs, encode L m = .ok bs ∧ parse w bs = some (toSpec L w m) := by
+  obtain ⟨bs, henc, hspec⟩ := spec_encode_eq L w m skip hL hm ha hs
+  refine ⟨bs, henc, parse_encode w _ bs ?_ hspec⟩
+  simp only [agree, Bool.and_eq_true] at ha
+  exact ha.2
+
+/-- generic, the other direction: the bytes the independent TS 24.501 encoder builds for the abstract message are
+    decoded by the codec to the intended values -/
+theorem C09_impl_parses_spec (L : Layout) (w : Wire) (m : Msg) (skip : List Nat)
+    (hL : LayoutWF L) (hm : specWF L m = true) (ha : agree L w skip = true) (hs : skips m skip = true) :
+    ∃ bs, Spec.Ts24501.encode w (toSpec L w m) = some bs ∧ decode L bs = .ok m := by
+  obtain ⟨bs, henc, hspec⟩ := spec_encode_eq L w m skip hL hm ha hs
+  refine ⟨bs, hspec, ?_⟩
+  have hm' : MsgWF L m := by
+    simp only [specWF, Bool.and_eq_true] at hm
+    exact hm.1.1
+  obtain ⟨mand, _, henc', hdec⟩ := decode_pieces L m hL hm'
+  rw [henc] at henc'
+  cases henc'
+  exact hdec _ (fun _ h => h) (fun p hp => List.mem_map_of_mem hp)
+
+/-- the standard's encoder and parser are mutually consistent (a fact about Spec/Ts24501.lean alone) -/
+theorem C09_spec_selfconsistent (w : Wire) (sm : SMsg) (bs : Bytes) (hnr : noRest w = true)
+    (h : Spec.Ts24501.encode w sm = some bs) : parse w bs = some sm :=
+  parse_encode w sm bs hnr h
+
+/-- fields a message must leave nil for the consequence theorems to apply: the deviating row of F15 -/
+def skipOf (L : Layout) : List Nat :=
+  if L.name == "RegistrationRequest" then [Gen.Nas.idx_RegistrationRequest_LastVisitedRegisteredTAI] else []
+
+def wireOf (L : Layout) : Option Wire := (tableByName L.name).bind (·.wire)
+
+/-- table fact: every layout except 8.2.28 (F23) implements the wire structure of its table row by row (the
+    Registration Request outside IEI 0x52), the tables' IEIs are pairwise distinct per message -/
+theorem C09_agree :
+    (Gen.Nas.layouts.all fun L =>
+      L.name == "SecurityProtected5GSNASMessage" ||
+      (match wireOf L with
+        | some w => agree L w (skipOf L)
+        | none => false)) = true := by
+  decide +kernel
+
+/-- C09 consequences for the code in the tree: 44 message types, every message that denotes an abstract message -/
+theorem C09_consequences (L : Layout) (hmem : L ∈ Gen.Nas.layouts) (hne : (L.name == "SecurityProtected5GSNASMessage") = false)
+    (m : Msg) (hm : specWF L m = true) (hs : skips m (skipOf L) = true) :
+    ∃ w bs, wireOf L = some w ∧ encode L m = .ok bs ∧ parse w bs = some (toSpec L w m) ∧
+      Spec.Ts24501.encode w (toSpec L w m) = some bs ∧ decode L bs = .ok m := by
+  have hall := C09_agree
+  rw [List.all_eq_true] at hall
+  have h := hall L hmem
+  simp only [hne, Bool.false_or] at h
+  cases hw : wireOf L with
+  | none => simp [hw] at h
+  | some w =>
+    simp only [hw] at h
+    have hL := C08.layouts_wf L hmem
+    obtain ⟨bs, henc, hparse⟩ := C09_spec_parses_impl L w m _ hL hm h hs
+    obtain ⟨bs', hspec, hdec⟩ := C09_impl_parses_spec L w m _ hL hm h hs
+    obtain ⟨bs'', henc'', hspec''⟩ := spec_encode_eq L w m _ hL hm h hs
+    rw [henc] at henc''; cases henc''
+    rw [hspec] at hspec''; cases hspec''
+    exact ⟨w, bs, rfl, henc, hparse, hspec, hdec⟩
+
+/-! ## the constructors on the emulator's path (NasPdu.go)
+
+    `Ctor.*` is the hand model of each constructor (Model/NasCtor.lean, tied by `corr nas-ctor`), `Intended.*` the
+    abstract message it is meant to send (Spec/NasCtorIntended.lean).  Each theorem: the bytes the constructor
+    produces are parsed by the independent TS 24.501 parser, under the message's table, to the intended values. -/
+
+open Stgutg.Gen.Nas in
+/-- the standard's parser reads the constructor's bytes back to `expected` -/
+def ctorParses (L : Layout) (model : Res Msg) (expected : SMsg) : Bool :=
+  match wireOf L, Ctor.encodeWith L model with
+  | some w, .ok bs => parse w bs == some expected
+  | _, _ => false
+
+/-- via the generic consequence theorem: a constructor whose message is `msg` sends `toSpec msg` -/
+theorem ctor_via_generic (L : Layout) (hmem : L ∈ Gen.Nas.layouts)
+    (hne : (L.name == "SecurityProtected5GSNASMessage") = false)
+    (model : Res Msg) (msg : Msg) (hmodel : model = .ok msg) (hwf : specWF L msg = true)
+    (hsk : skips msg (skipOf L) = true) (w : Wire) (hw : wireOf L = some w)
+    (expected : SMsg) (hto : toSpec L w msg = expected) :
+    ∃ bs, Ctor.encodeWith L model = .ok bs ∧ parse w bs = some expected := by
+  obtain ⟨w', bs, hw', henc, hparse, _, _⟩ := C09_consequences L hmem hne msg hwf hsk
+  rw [hw] at hw'; cases hw'
+  exact ⟨bs, by simp [Ctor.encodeWith, hmodel, henc], by rw [hparse, hto]⟩
+
+section
+open Stgutg.Gen.Nas
+
+/-- `GetPduSessionEstablishmentRequest`: every PDU session identity; PTI 1, IPv4, full integrity data rates, the PCO -/
+theorem C09_ctor_establishmentRequest : ∀ psi < 256, ctorParses layout_PDUSessionEstablishmentRequest
+    (Ctor.pduSessionEstablishmentRequest (UInt8.ofNat psi)) (Intended.pduSessionEstablishmentRequest psi 1) = true := by
+  decide +kernel
+
+/-- `GetServiceRequest`: every service type value; ngKSI native/1, 5G-S-TMSI with type of identity 5G-S-TMSI (after the
+    F18 repair), uplink data status for "data", allowed PDU session status for "mobile terminated services" -/
+theorem C09_ctor_serviceRequest : ∀ st < 16, ctorParses layout_ServiceRequest
+    (Ctor.serviceRequest (UInt8.ofNat st)) (Intended.serviceRequest st) = true := by
+  decide +kernel
+
+/-- full statement for the three 5GSM constructors without a PTI argument: they use an assigned PTI (7.3.1) -/
+def C09_ctor_pti_statement : Prop :=
+  ∀ psi < 256, ∃ pti, 1 ≤ pti ∧ pti ≤ 254 ∧
+    ctorParses layout_PDUSessionReleaseRequest (Ctor.pduSessionReleaseRequest (UInt8.ofNat psi))
+      (Intended.pduSessionReleaseRequest psi pti) = true ∧
+    ctorParses layout_PDUSessionReleaseComplete (Ctor.pduSessionReleaseComplete (UInt8.ofNat psi))
+      (Intended.pduSessionReleaseComplete psi pti) = true ∧
+    ctorParses layout_PDUSessionModificationRequest (Ctor.pduSessionModificationRequest (UInt8.ofNat psi))
+      (Intended.pduSessionModificationRequest psi pti) = true
+
+/-- what they send (F19, known finding): everything as intended except that the PTI octet is 0 = "unassigned" -/
+theorem C09_ctor_pti_partial : ∀ psi < 256,
+    ctorParses layout_PDUSessionReleaseRequest (Ctor.pduSessionReleaseRequest (UInt8.ofNat psi))
+      ⟨[[0x2E], [UInt8.ofNat psi], [0], [0xD1]], []⟩ = true ∧
+    ctorParses layout_PDUSessionReleaseComplete (Ctor.pduSessionReleaseComplete (UInt8.ofNat psi))
+      ⟨[[0x2E], [UInt8.ofNat psi], [0], [0xD4]], []⟩ = true ∧
+    ctorParses layout_PDUSessionModificationRequest (Ctor.pduSessionModificationRequest (UInt8.ofNat psi))
+      ⟨[[0x2E], [UInt8.ofNat psi], [0], [0xC9]], []⟩ = true := by
+  decide +kernel
+
+theorem C09_ctor_pti_counterexample : ¬ C09_ctor_pti_statement := by
+  intro h
+  obtain ⟨pti, h1, h2, h3, _⟩ := h 5 (by decide)
+  have hall : ∀ pti < 255, 1 ≤ pti →
+      ctorParses layout_PDUSessionReleaseRequest (Ctor.pduSessionReleaseRequest (UInt8.ofNat 5))
+        (Intended.pduSessionReleaseRequest 5 pti) = false := by decide +kernel
+  rw [hall pti (by omega) h1] at h3
+  cases h3
+
+/-- `GetUlNasTransport_PduSessionReleaseRequest`: UL NAS TRANSPORT, payload container type N1 SM information, PDU session
+    ID IE = the argument, payload = the release request (with its PTI 0, F19) -/
+theorem C09_ctor_ulReleaseRequest_partial : ∀ psi < 256, ctorParses layout_ULNASTransport
+    (Ctor.ulReleaseRequest (UInt8.ofNat psi))
+    (Intended.ulNasTransport [0x2E, UInt8.ofNat psi, 0, 0xD1] psi none [] none) = true := by
+  decide +kernel
+
+/-- `GetRegistrationComplete`: with or without a SOR transparent container of any content below 64 KiB -/
+theorem C09_ctor_registrationComplete (sor : Option Bytes) (h : ∀ c, sor = some c → c.length < 65536) :
+    ∃ w bs, wireOf layout_RegistrationComplete = some w ∧
+      Ctor.encodeWith layout_RegistrationComplete (Ctor.registrationComplete sor) = .ok bs ∧
+      parse w bs = some (Intended.registrationComplete sor) := by
+  have hhdr : Ctor.gmmHeader (initMsg layout_RegistrationComplete) idx_RegistrationComplete_ExtendedProtocolDiscriminator
+      idx_RegistrationComplete_SpareHalfOctetAndSecurityHeaderType idx_RegistrationComplete_RegistrationCompleteMessageIdentity 0x43 true
+      = .ok [some ⟨0, 0, [0x7E]⟩, some ⟨0, 0, [0x00]⟩, some ⟨0, 0, [0x43]⟩, none] := by decide +kernel
+  obtain ⟨w, hw⟩ : ∃ w, wireOf layout_RegistrationComplete = some w :=
+    Option.isSome_iff_exists.mp (by decide +kernel)
+  refine ⟨w, ?_⟩
+  have hsk : skipOf layout_RegistrationComplete = [] := by decide +kernel
+  cases sor with
+  | none =>
+    obtain ⟨bs, h1, h2⟩ := ctor_via_generic layout_RegistrationComplete (by simp [Gen.Nas.layouts]) (by decide +kernel)
+      (Ctor.registrationComplete none)
+      [some ⟨0, 0, [0x7E]⟩, some ⟨0, 0, [0x00]⟩, some ⟨0, 0, [0x43]⟩, none]
+      (by simp [Ctor.registrationComplete, hhdr, bind, Except.bind, pure, Except.pure])
+      (by decide +kernel) (by rw [hsk]; rfl) w hw (Intended.registrationComplete none)
+      (by simp [toSpec, layout_RegistrationComplete, mandToSpec, Intended.registrationComplete, Intended.present])
+    exact ⟨bs, hw, h1, h2⟩
+  | some c =>
+    have hc := h c rfl
+    obtain ⟨bs, h1, h2⟩ := ctor_via_generic layout_RegistrationComplete (by simp [Gen.Nas.layouts]) (by decide +kernel)
+      (Ctor.registrationComplete (some c))
+      [some ⟨0, 0, [0x7E]⟩, some ⟨0, 0, [0x00]⟩, some ⟨0, 0, [0x43]⟩, some ⟨0x73, c.length, c⟩]
+      (by simp [Ctor.registrationComplete, hhdr, bind, Except.bind, pure, Except.pure, Ctor.setP,
+            Ctor.bufIE_eq sh_SORTransparentContainer 0x73 65536 c _ rfl rfl (by omega) hc,
+            idx_RegistrationComplete_SORTransparentContainer])
+      (by simp [specWF, msgWF, mandValsOK, optValsOK, specValsOK, layout_RegistrationComplete, mandValOK, optValOK,
+            specValOK, lenFits, sh_ExtendedProtocolDiscriminator, sh_SpareHalfOctetAndSecurityHeaderType,
+            sh_RegistrationCompleteMessageIdentity, sh_SORTransparentContainer, Body.size, hc])
+      (by rw [hsk]; rfl) w hw (Intended.registrationComplete (some c))
+      (by simp [toSpec, layout_RegistrationComplete, mandToSpec, optToSpec, Intended.registrationComplete, Intended.present])
+    exact ⟨bs, hw, h1, h2⟩
+
+end
 
 end Stgutg.Props.C09
